@@ -106,8 +106,14 @@ def gen_reference(rng):
             row[g] = [5, 6, 5, 6, 5, 6][i]
         clusters[0], clusters[1] = lowc, highc
         T['q1min'], T['qdiffmin'] = rng.choice([((1, 10), (1, 5)), ((1, 4), (1, 10)), ((1, 10), (1, 10))])
-    conf = {'T': T, 'exact': exact, 'n_valid': rng.choice([1, 2, 3, 5, 30]),
-            'gene_list': sorted(rng.sample(range(ng), rng.randint(1, ng))) if rng.random() < 0.3 else None,
+    zero_floors = rng.random() < 0.15
+    if zero_floors:
+        # every minimum floor at 0 (legal: the strict thresholds stay above), a short gene list, approximate mode
+        T['q1min'] = T['qdiffmin'] = T['foldmin'] = (0, 1)
+        exact = False
+    conf = {'T': T, 'exact': exact, 'n_valid': rng.choice([1, 2, 3, 5, 30]) if not zero_floors else rng.choice([5, 30]),
+            'gene_list': sorted(rng.sample(range(ng), rng.randint(1, ng) if not zero_floors else rng.randint(1, 2)))
+            if (rng.random() < 0.3 or zero_floors) else None,
             'P': rng.randint(1, 3), 'max_gb': rng.choice([1, 1e-3, 1e-7]), 'pad_list': rng.random() < 0.5}
     two_level = rng.random() < 0.5
     return {'clusters': clusters, 'ng': ng, 'conf': conf, 'two_level': two_level}
